@@ -1350,3 +1350,20 @@ from .variants_layout import BREAKING as _LAY_BREAKING, PRESERVING as _LAY_PRESE
 BREAKING += _LAY_BREAKING
 PRESERVING += _LAY_PRESERVING
 UNDECIDED += _LAY_UNDECIDED
+
+# ---- final round: the li range test written with a shift ((value + 2**11) >> 12 == 0); interval_from_conds reads `value + c` and
+# `(value + c) >> k == 0` exactly and nothing else that merely contains the evaluation
+_LI_GUARD = "            if value >= (-2**11) and value <= (2**11 - 1):"
+PRESERVING += [
+    ('p5-li-guard-shift', ['C03', 'C05', 'C07'], [(A, _LI_GUARD, "            if (value + 2**11) >> 12 == 0:")]),
+    ('p5-li-guard-shift-narrower', ['C03', 'C05', 'C07'], [(A, _LI_GUARD, "            if (value + 2**10) >> 11 == 0:")]),
+    ('p5-li-guard-affine', ['C03', 'C05', 'C07'], [(A, _LI_GUARD, "            if value + 2048 >= 0 and value - 2047 <= 0:")]),
+]
+BREAKING += [
+    ('c5-li-guard-shift-wide', ['C05', 'C07'], [(A, _LI_GUARD, "            if (value + 2**11) >> 13 == 0:")]),
+    ('c5-li-guard-shift-offset', ['C05', 'C07'], [(A, _LI_GUARD, "            if (value + 2**12) >> 12 == 0:")]),
+    ('c5-li-guard-affine-wide', ['C05', 'C07'], [(A, _LI_GUARD, "            if value + 2048 >= 0 and value - 2048 <= 0:")]),
+]
+UNDECIDED += [
+    ('u5-li-guard-floordiv', ['C05', 'C07'], [(A, _LI_GUARD, "            if value // 2 >= -1024 and value // 2 <= 1023:")]),
+]
